@@ -67,6 +67,32 @@ def make_schedule(spec, seed):
     return steps
 
 
+def real_depths(module, mode):
+    """depths of the asynchronous FIFOs actually elaborated under `module`, in construction order (cmd, [wdata], [rdata])"""
+    from migen.genlib.fifo import AsyncFIFO, AsyncFIFOBuffered
+    found = []
+
+    def walk(m):
+        if isinstance(m, (AsyncFIFO, AsyncFIFOBuffered)):
+            found.append(m.depth)
+            return
+        for _, sub in getattr(m, "_submodules", []):
+            walk(sub)
+        for name in ("fifo", "cdc"):
+            sub = getattr(m, name, None)
+            if sub is not None and not any(sub is x for _, x in getattr(m, "_submodules", [])) and hasattr(sub, "_submodules"):
+                walk(sub)
+    walk(module)
+    names = ["cmd"] + (["wdata"] if mode in ("write", "both") else []) + (["rdata"] if mode in ("read", "both") else [])
+    d = dict(cmd=4, wdata=16, rdata=16)
+    if len(found) == len(names):
+        d.update(dict(zip(names, found)))
+        d["exact"] = True
+    else:
+        d["exact"] = False          # structure not recognised (e.g. a channel without FIFO): lock-step is skipped
+    return d
+
+
 def build(sc):
     """Returns (top, user_port, mem_port, depths). via="cdc": the bare adapter; via="xbar": real LiteDRAMCrossbar.get_port on
     a bare LiteDRAMInterface-less stub is not possible, so the crossbar variant elaborates get_port's own construction path:
@@ -84,10 +110,7 @@ def build(sc):
             self.mem = LiteDRAMNativePort(mode, aw, dw, clock_domain="sys")
             self.submodules.cdc = LiteDRAMNativePortCDC(self.user, self.mem, **kw)
     top = Top()
-    import inspect
-    sig = inspect.signature(LiteDRAMNativePortCDC.__init__).parameters
-    depths = {k: kw.get(k + "_depth", sig[k + "_depth"].default) for k in ("cmd", "wdata", "rdata")}
-    return top, top.user, top.mem, depths
+    return top, top.user, top.mem, real_depths(top.cdc, mode)
 
 
 class XbarBackend:
@@ -237,7 +260,7 @@ def run_cdc(sc, lock_edges=0):
     if sc.get("via") == "xbar":
         xb = XbarBackend(sc)
         top, user, memp = xb.top, xb.top.user, xb.top.mem
-        depths = dict(cmd=4, wdata=16, rdata=16)
+        depths = real_depths(top.crossbar, sc.get("mode", "both"))
         sc = dict(sc, aw=user.address_width, dw=user.data_width)
     else:
         top, user, memp, depths = build(sc)
@@ -252,9 +275,11 @@ def run_cdc(sc, lock_edges=0):
         strict = True
         mem = xb
     elif strict:
+        # capacity assumption of the pulse-semantics memory side (see module docstring): adapt to the FIFO depths found
         lim = min(depths["wdata"] if mode != "read" else 1 << 30, depths["rdata"] if mode != "write" else 1 << 30)
-        if not (mo + depths["cmd"] + wlead < lim - 2):
-            raise RuntimeError("scenario breaks the documented capacity assumption of the pulse-semantics memory side")
+        mo = min(mo, lim - 3 - depths["cmd"] - wlead)
+        if mo < 1:
+            strict = False            # FIFOs too shallow for any pulse-semantics traffic: ready-honouring memory side only
     if xb is None:
         mem = IdealMem([memp], seed=seed, lat=tuple(sc.get("lat", (3, 12))), stall=sc.get("stall", 0.3), lenient=not strict,
                        max_outstanding=mo if strict else sc.get("max_outstanding", 24))
@@ -279,13 +304,13 @@ def run_cdc(sc, lock_edges=0):
             s = yield from sample(user)
             t = ref.now
             if s["cv"] and s["cr"]:
-                events.append((t, 1, dict(c="CMD", s="u", we=bool(s["cwe"]), a=s["ca"], last=s["cl"], t=t)))
+                events.append((t, 1, dict(c="CMD", s="u", we=bool(s["cwe"]), a=s["ca"], last=s["cl"], t=t, uc=state["ucycles"])))
             if s["wv"] and s["wr"]:
                 state["win"] += 1
                 state["wmax"] = max(state["wmax"], state["win"] - state["wout"])
-                events.append((t, 2, dict(c="WDATA", s="u", d=tobytes(s["wd"], nb), m=[(s["wm"] >> j) & 1 for j in range(nb)], t=t)))
+                events.append((t, 2, dict(c="WDATA", s="u", d=tobytes(s["wd"], nb), m=[(s["wm"] >> j) & 1 for j in range(nb)], t=t, uc=state["ucycles"])))
             if s["rv"] and s["rr"]:
-                events.append((t, 6, dict(c="RDATA", s="u", d=tobytes(s["rd"], nb), t=t)))
+                events.append((t, 6, dict(c="RDATA", s="u", d=tobytes(s["rd"], nb), t=t, uc=state["ucycles"])))
                 state["rgot"] += 1
             if state["ucycles"] + state["scycles"] < lock_edges:
                 lockrec.append((t, "user", s))
@@ -298,15 +323,15 @@ def run_cdc(sc, lock_edges=0):
             s = yield from sample(memp)
             t = ref.now
             if s["rv"] and s["rr"]:
-                events.append((t, 3, dict(c="RDATA", s="m", d=tobytes(s["rd"], nb), t=t)))
+                events.append((t, 3, dict(c="RDATA", s="m", d=tobytes(s["rd"], nb), t=t, uc=state["ucycles"])))
             elif s["rv"] and strict:
-                events.append((t, 7, dict(c="RDROP", s="m", t=t)))
+                events.append((t, 7, dict(c="RDROP", s="m", t=t, uc=state["ucycles"])))
             if s["cv"] and s["cr"]:
-                events.append((t, 4, dict(c="CMD", s="m", we=bool(s["cwe"]), a=s["ca"], last=s["cl"], t=t)))
+                events.append((t, 4, dict(c="CMD", s="m", we=bool(s["cwe"]), a=s["ca"], last=s["cl"], t=t, uc=state["ucycles"])))
             if s["wv"] and s["wr"]:
-                events.append((t, 5, dict(c="WDATA", s="m", d=tobytes(s["wd"], nb), m=[(s["wm"] >> j) & 1 for j in range(nb)], t=t)))
+                events.append((t, 5, dict(c="WDATA", s="m", d=tobytes(s["wd"], nb), m=[(s["wm"] >> j) & 1 for j in range(nb)], t=t, uc=state["ucycles"])))
             elif s["wr"] and strict:
-                events.append((t, 7, dict(c="WDROP", s="m", t=t)))
+                events.append((t, 7, dict(c="WDROP", s="m", t=t, uc=state["ucycles"])))
             if xb is not None:
                 xb.outstanding += int(bool(s["cv"] and s["cr"])) - int(bool(s["rv"])) - int(bool(s["wr"]))
                 state["maxout"] = max(state["maxout"], xb.outstanding)
@@ -432,13 +457,16 @@ def run_cdc(sc, lock_edges=0):
     evs = [e[2] for e in events]
     evs.append(dict(c="DUMP", n=mem.changed(), t=ref.now))
     evs.append(dict(c="END", t=ref.now))
-    return dict(events=evs, lock=lock_lines(lockrec, nb) if lock_edges else [], depths=depths,
+    for e in evs:
+        e.setdefault("uc", state["ucycles"])
+    exact = depths.pop("exact", True)
+    return dict(events=evs, lock=lock_lines(lockrec, nb, mode) if (lock_edges and exact) else [], depths=depths,
                 stats=dict(user_cycles=state["ucycles"], sys_cycles=state["scycles"], timed_out=int(state["timed_out"]),
                            cmds=len(plan), reads=nreads, rdata_fifo_max=state["rmax"], wdata_fifo_max=state["wmax"],
                            mem_outstanding_max=state["maxout"]))
 
 
-def lock_lines(lockrec, nb):
+def lock_lines(lockrec, nb, mode="both"):
     """Per-(instant, channel) lines for T_AsyncFifo.tla. Payloads are numbered injectively (0 is the reset content)."""
     lockrec.sort(key=lambda r: r[0])
     if lockrec:                                   # the last instant may have been cut between its two edges: drop it
@@ -464,6 +492,8 @@ def lock_lines(lockrec, nb):
         for ch, wside, rside in (("cmd", u, s), ("wdata", u, s), ("rdata", s, u)):
             if wside is None and rside is None:
                 continue
+            if (ch == "wdata" and mode == "read") or (ch == "rdata" and mode == "write"):
+                continue                      # that crossing does not exist in this port mode
             ln = dict(ch=ch, k="B" if (wside is not None and rside is not None) else ("W" if wside is not None else "R"))
             if wside is not None:
                 if ch == "cmd":
